@@ -83,6 +83,7 @@ inline Pattern gen_pattern(Tape & t, const DType & dt, const std::vector<std::st
     p.seed = (uint64_t) t.raw() << 1;
     if (p.kind == "const") p.p1 = t.range(0, 255);
     else if (p.kind == "blocks") p.p1 = block_hint ? (int64_t) block_hint * t.range(1, 2) : 64;
+    else if (p.kind == "spike") p.p1 = block_hint ? (int64_t) block_hint : 64;
     (void) dt;
     return p;
 }
